@@ -37,8 +37,10 @@ pub enum Arg {
     Bool,
     /// choice among n alternatives
     Choice(u64),
-    /// arbitrary 64-bit value
+    /// arbitrary 64-bit value (mostly small)
     Any,
+    /// uniformly random 64-bit value
+    Wide,
 }
 
 #[derive(Clone, Copy, Debug)]
